@@ -284,7 +284,7 @@ _my = dict(pkg="ariga.io/atlas/sql/mysql", hdir="mysql")
 _pg = dict(pkg="ariga.io/atlas/sql/postgres", hdir="postgres")
 _lt = dict(pkg="ariga.io/atlas/sql/sqlite", hdir="sqlite")
 _hcl = dict(initallow=["ariga.io/atlas/schemahcl", "github.com/zclconf/go-cty/cty", "github.com/go-openapi/inflect"])
-_hclfull = dict(initallow=["math/big", "ariga.io/atlas/schemahcl/...", "github.com/zclconf/go-cty/...", "github.com/go-openapi/inflect",
+_hclfull = dict(initallow=["database/sql", "math/big", "ariga.io/atlas/schemahcl/...", "github.com/zclconf/go-cty/...", "github.com/go-openapi/inflect",
                            "github.com/hashicorp/hcl/v2/...", "github.com/apparentlymart/go-textseg/...", "github.com/agext/levenshtein",
                            "github.com/mitchellh/go-wordwrap"])
 _c15_doc = [dict(c, **_hclfull, harness="VerifHarness_C15_%s_doc_%s" % (d, fam), reach=["evaluated"])
@@ -738,12 +738,14 @@ PROPS["C03"] = dict(
     runs={
         "quick": [
             dict(harness="VerifHarness_C03_index2", reach=["recovered", "expression"], stubs=_rows_stubs),
+            dict(harness="VerifHarness_C03_types", reach=["recovered"]),
             dict(harness="VerifHarness_C03_names", reach=["recovered"]),
             dict(harness="VerifHarness_C03_checks3", reach=["recovered"], flags=["-domain"]),
             dict(harness="VerifHarness_C03_gen3", reach=["recovered"], flags=["-domain"]),
         ],
         "thorough": [
             dict(harness="VerifHarness_C03_index3", reach=["recovered", "expression"], stubs=_rows_stubs, cross=False),
+            dict(harness="VerifHarness_C03_types", reach=["recovered"]),
             dict(harness="VerifHarness_C03_names", reach=["recovered"]),
             dict(harness="VerifHarness_C03_checks2", reach=["recovered"], cross=False),
             dict(harness="VerifHarness_C03_checks3", reach=["recovered"]),
@@ -753,7 +755,10 @@ PROPS["C03"] = dict(
     bounds={
         "quick": "SQLite CREATE TABLE emitted by the planner for a table with primary key (AUTOINCREMENT or not), a foreign key (named with a symbolic \\w "
                  "character, or unnamed), one CHECK constraint (named or not) whose expression ends in 3 symbolic bytes over {a,b,c,1,space,(,),',\",`,>,+,_}, "
-                 "a STORED generated column whose expression ends in 3 such bytes; expressions assumed balanced in parentheses and quotes",
+                 "a STORED generated column whose expression ends in 3 such bytes; expressions assumed balanced in parentheses and quotes; index slice: one index of "
+                 "1..2 key parts (column or expression of 2 symbolic bytes, ascending or descending), optionally unique and partial, emitted by the planner and "
+                 "recovered by the real inspect.indexes (pragma answers modelled from the emitted statement); type slice: every type of the SQLite catalogue "
+                 "(38 names incl. 3 user-defined spellings x 3 argument forms x 2 cases) exported by FormatType, inspected again by ParseType and compared by the real differ",
         "thorough": "same plus two CHECK constraints with 2 symbolic bytes each",
     },
     assumptions=[
